@@ -50,7 +50,9 @@ def native_build(driver, sess_dir, gen_dir, extra_defs=()):
         skip = set(re.sub(r'\W', '_', i) + '.o' for i in included)
         link = [o for o, _ in objs if os.path.basename(o) not in skip]
         exe = os.path.join(bdir, driver)
-        p = subprocess.run(['g++'] + flags + ['-I' + os.path.join(VERIF, 'replay'), '-I' + REPO, src] + link + ['-lpthread', '-o', exe], capture_output=True, text=True)
+        ms = re.search(r'REPLAY-STD:\s*(\S+)', txt)      # the driver (and what it #includes) in a later dialect than the library objects
+        dflags = [('-std=' + ms.group(1)) if (ms and f.startswith('-std=')) else f for f in flags]
+        p = subprocess.run(['g++'] + dflags + ['-I' + os.path.join(VERIF, 'replay'), '-I' + REPO, src] + link + ['-lpthread', '-o', exe], capture_output=True, text=True)
         if p.returncode != 0: return None, 'native driver build failed: ' + p.stderr[-3000:]
     return exe, ''
 
